@@ -176,21 +176,25 @@ Proof.
   - apply IH; auto.
 Qed.
 
+Lemma extract_fold_acc d : forall l acc, Forall field_ok l -> Forall ordinary l ->
+  fold_left (fun a kv => let '(k, orig) := kv in let v := trim_qs orig in
+                         if placeholder v then a
+                         else if isS k "msg" then fold_left (fun a' e => kv_add (fst e) (snd e) a') (rev (extract d v [])) a
+                         else kv_add k (orig, v) a)
+            (map (fun f => (fst f, text_of (snd f))) l) acc
+  = fold_left (fun a f => kv_add (fst f) (text_of (snd f), value_of (snd f)) a) l acc.
+Proof.
+  induction l as [|g l IH]; intros acc H1 H2; cbn [map fold_left]; auto.
+  inversion H1 as [|? ? (Hk & Hkey & Hv) H1']; inversion H2 as [|? ? (Hm & Hp & Hvo) H2']; subst.
+  rewrite (trim_text _ Hv Hvo), Hp, Hm. apply IH; auto.
+Qed.
+Lemma extract_as_fold d fs : Forall field_ok fs -> Forall ordinary fs ->
+  extract (S d) (body fs) [] = fold_left (fun a f => kv_add (fst f) (text_of (snd f), value_of (snd f)) a) fs [].
+Proof. intros Hok Hord. cbn [extract]. rewrite (body_tokenised fs Hok). apply extract_fold_acc; auto. Qed.
+
 Theorem extract_body d fs : Forall field_ok fs -> Forall ordinary fs -> NoDup (map fst fs) ->
   forall f, In f fs -> kv_get (fst f) (extract (S d) (body fs) []) = Some (text_of (snd f), value_of (snd f)).
 Proof.
-  intros Hok Hord Hnd f Hin. cbn [extract]. rewrite (body_tokenised fs Hok).
-  (* the fold over the tokens is the fold over the fields *)
-  assert (Hfold: forall l acc, Forall field_ok l -> Forall ordinary l ->
-            fold_left (fun a kv => let '(k, orig) := kv in let v := trim_qs orig in
-                                   if placeholder v then a
-                                   else if isS k "msg" then fold_left (fun a' e => kv_add (fst e) (snd e) a') (rev (extract d v [])) a
-                                   else kv_add k (orig, v) a)
-                      (map (fun f => (fst f, text_of (snd f))) l) acc
-            = fold_left (fun a f => kv_add (fst f) (text_of (snd f), value_of (snd f)) a) l acc).
-  { induction l as [|g l IH]; intros acc H1 H2; cbn [map fold_left]; auto.
-    inversion H1 as [|? ? (Hk & Hkey & Hv) H1']; inversion H2 as [|? ? (Hm & Hp & Hvo) H2']; subst.
-    rewrite (trim_text _ Hv Hvo), Hp, Hm. apply IH; auto. }
-  rewrite Hfold by auto. apply fold_get_in; auto.
+  intros Hok Hord Hnd f Hin. rewrite extract_as_fold by auto. apply fold_get_in; auto.
 Qed.
 Print Assumptions extract_body.
